@@ -221,6 +221,13 @@ impl LocustDB {
     pub fn verif_wal(&self) -> (u64, u64, u64) {
         self.inner_locustdb.verif_wal()
     }
+
+    /// Liveness token of this instance: its strong count is 0 once every thread of the instance has exited.
+    #[cfg(feature = "verif")]
+    pub fn verif_liveness(&self) -> std::sync::Weak<dyn std::any::Any + Send + Sync> {
+        let weak = Arc::downgrade(&self.inner_locustdb);
+        weak
+    }
 }
 
 #[derive(Clone)]
